@@ -158,6 +158,15 @@ func (bkt *Bucket) checkHintWithData(chunkID int) (err error) {
 		return
 	}
 	hintDataSize := bkt.hints.loadHintsByChunk(chunkID)
+	if hintDataSize > size {
+		// a hint split can be dumped before the records it describes are flushed;
+		// if the process died in between, the hint points beyond the data file
+		// (and may carry deletes or versions that never became durable): the data
+		// file is the truth, rebuild this chunk's hints from it
+		logger.Warnf("hint of chunk %d covers %d bytes but the data file has %d, rebuild it", chunkID, hintDataSize, size)
+		bkt.hints.ClearChunk(chunkID)
+		hintDataSize = 0
+	}
 	if hintDataSize < size {
 		err = bkt.buildHintFromData(chunkID, hintDataSize)
 	}
